@@ -64,9 +64,12 @@ def gen_crystal(ctx: Ctx, kind=None, eighths=True):
     lat = {"halfx": [[0, 0, 0], [.5, 0, 0]], "halfy": [[0, 0, 0], [0, .5, 0]], "halfz": [[0, 0, 0], [0, 0, .5]],
            "super211": [[0, 0, 0], [.5, 0, 0]], "super221": [[0, 0, 0], [.5, 0, 0], [0, .5, 0], [.5, .5, 0]],
            "super222": [[i / 2, j / 2, k / 2] for i in (0, 1) for j in (0, 1) for k in (0, 1)],
-           "generic": [[0, 0, 0]], "triclinic": [[0, 0, 0]]}.get(kind) or STANDARD[kind]
+           "generic": [[0, 0, 0]], "triclinic": [[0, 0, 0]]}.get(kind) or STANDARD[kind[-1] if kind.startswith("dopant") else kind]
     scaled = [[(t[a] + p[a]) % 1.0 for a in range(3)] for t in lat for p in basis]
     numbers = [z for _ in lat for z in nums]
+    if kind.startswith("dopant"):  # centred host + one interstitial of another element: the true lattice is primitive
+        scaled.append([round(rng.uniform(0.05, 0.45), 3) for _ in range(3)] if not eighths else [rng.choice([1, 3]) / 8 for _ in range(3)])
+        numbers.append(rng.choice([z for z in ELEMENTS if z not in nums]))
     lengths = [rng.choice([2.5, 3.0, 3.5, 4.0, 4.5]) for _ in range(3)]
     if kind.startswith("super"):
         lengths = [l * 1.5 for l in lengths]
@@ -214,7 +217,8 @@ class C27(Property):
 
         # E. auto_detect_centering (orthogonal cells, eighth positions) ------------------------
         for _ in range(ctx.n(60, 800)):
-            cr = gen_crystal(ctx, kind=rng.choice(CENTERINGS + ["halfx", "halfy", "halfz", "super211", "super221", "super222"]))
+            cr = gen_crystal(ctx, kind=rng.choice(CENTERINGS + ["halfx", "halfy", "halfz", "super211", "super221", "super222",
+                                                                  "dopantF", "dopantI", "dopantC"]))
             if rng.random() < 0.2 and len(cr["numbers"]) > 1:  # break the symmetry: drop one atom
                 k = rng.randrange(len(cr["numbers"]))
                 cr["numbers"].pop(k)
@@ -360,8 +364,9 @@ class C27(Property):
             case = dict(gen_crystal(ctx, kind=rng.choice(["generic", "triclinic", "F", "I"])), check="friedel")
             self.oracle(ctx, case)
             ctx.case(case)
-        kinds = CENTERINGS + ["halfx", "halfy", "halfz", "super211", "super221", "super222", "generic"]
-        for i in range(ctx.n(26, 300)):
+        kinds = CENTERINGS + ["halfx", "halfy", "halfz", "super211", "super221", "super222", "generic",
+                              "dopantF", "dopantI", "dopantA", "dopantB", "dopantC"]
+        for i in range(ctx.n(36, 360)):
             k = kinds[i % len(kinds)]
             cr = gen_crystal(ctx, kind=k, eighths=False)
             cr["generic_basis"] = True
